@@ -8,10 +8,12 @@
  *       path resolves to" is described by the ghosts xv_atr_h_* (never assigned: none / ANY live node: value, dictionary
  *       or list, any registered type, with or without setter/getter).  The registered setter/getter are
  *       body-less, contract-carrying stubs (xv_atr_setter / xv_atr_getter) that record how they were called.
- *   node_lookup, attr_tree_add_value_node, attr_tree_get_all, attr_tree_destroy: the tree is a heap structure (TAILQ of
- *       named / indexed children); CBMC has no inductive heap predicates, so these are BOUNDED stand-ins (plain CBMC on
- *       the real text, trees built by the real attr_tree_add_value_node): harness/attrtree/tree_*.c.
- *   visit_value (one value node of attr_tree_get_all): unbounded in everything but the size the getter may ask for.
+ *   node_lookup, attr_tree_get_all (visit_node/_dict/_list, attr_node_dict_foreach/_list_foreach, attr_node_dict_get_key,
+ *       attr_node_list_len/_get_index): the tree is a heap structure (TAILQ of named / indexed children); CBMC has no
+ *       inductive heap predicates, so these are BOUNDED stand-ins (plain CBMC on the real text over one five-node tree):
+ *       harness/attrtree/tree_lookup.c, tree_get_all.c, fixture _tree.h.
+ *   visit_value (one value node of attr_tree_get_all): unbounded in everything but the number of times the getter may
+ *       answer EOVERFLOW (ATR_NEED_MAX): labelled bounded.
  *
  * Ghost names are prefixed xv_atr_ (unit xcmcore uses xv_at_ for its own model of this module). */
 #ifndef XV_ATTRTREE_H
@@ -30,7 +32,8 @@
 #define ATR_CAP_MAX 65536
 /* a string value (the only type whose CONTENT attr_tree_set_value has to look at) lives in an object of <= this size */
 #define ATR_STR_MAX 64
-/* TRUSTED: the size of an attribute value as far as EOVERFLOW is concerned (xv_atr_need) is at most this */
+/* BOUND OF EXPLORATION (not a fact about XCM): the size of an attribute value as far as EOVERFLOW is concerned
+ * (xv_atr_need) is at most this: visit_value doubles its 256-byte buffer at most twice.  get_value/set_value do not depend on it. */
 #ifndef ATR_NEED_MAX
 #define ATR_NEED_MAX 1024
 #endif
@@ -69,8 +72,8 @@ __CPROVER_ensures(xv_atr_set_rv == ATR_RV && xv_atr_set_errno == xv_errno)
  * (checked at the call site; a buffer of more than ATR_CAP_MAX bytes is represented by its first ATR_CAP_MAX bytes).
  * What is assumed of a getter is what C10 demands of every getter and what their own units prove: it writes inside the
  * buffer, a success returns the number of bytes written (<= capacity; == sizeof(T) for bool/int64/double; a str is
- * NUL-terminated at rv-1), EOVERFLOW is only reported for a capacity below the size of the value.  TRUSTED: an attribute
- * value has at most ATR_NEED_MAX bytes (xv_atr_need, any value up to that). */
+ * NUL-terminated at rv-1), EOVERFLOW is only reported for a capacity below the size of the value (xv_atr_need, any value
+ * up to ATR_NEED_MAX, see there). */
 #define ATR_BUF_SIZE(cap) ((cap) <= ATR_CAP_MAX ? (cap) : (size_t)ATR_CAP_MAX)
 int xv_atr_getter(struct xcm_socket *s, void *context, void *value, size_t capacity)
 __CPROVER_requires(ATR_CNT_OK_STUB(xv_atr_get_calls) && ATR_CNT_OK_STUB(xv_atr_get_good) && xv_atr_need <= ATR_NEED_MAX)
@@ -205,6 +208,7 @@ __CPROVER_ensures(!ATR_LEN_OK(type, len) ==> (ATR_RV == -1 && ATR_NO_SETTER && A
 __CPROVER_ensures((ATR_WRITABLE && !ATR_LEN_OK(type, len)) ==> ATR_REJECTED(EINVAL))
 /* PO[C10] attr_tree_set_value.unterminated_str_rejected_before_setter: the setters use a str value as a C string */
 __CPROVER_ensures((type == xcm_attr_type_str && ATR_STR_UNTERMINATED(value, len)) ==> (ATR_RV == -1 && ATR_NO_SETTER && ATR_SET_ERRNO_IN3))
+/* PO[C10] attr_tree_set_value.unterminated_str_einval */
 __CPROVER_ensures((ATR_WRITABLE && type == xcm_attr_type_str && ATR_STR_UNTERMINATED(value, len)) ==> ATR_REJECTED(EINVAL))
 #ifdef XV_ATR_STRICT
 /* PO[C10] attr_tree_set_value.str_length_is_strlen_plus_one */
@@ -213,7 +217,8 @@ __CPROVER_ensures((type == xcm_attr_type_str && ATR_STR_SHORTER(value, len)) ==>
 /* PO[C10] attr_tree_set_value.errno_is_truthful: ENOENT only for a name that does not resolve, EACCES only for an existing node that cannot be written, EINVAL only for a malformed name/value or a type other than the registered one */
 __CPROVER_ensures((ATR_RV == -1 && ATR_NO_SETTER) ==> (ATR_SET_ERRNO_IN3 && (xv_errno == ENOENT ==> ATR_UNKNOWN) && (xv_errno == EACCES ==> (!ATR_UNKNOWN && !ATR_WRITABLE)) && \
                   (xv_errno == EINVAL ==> (ATR_NOT_LOOKED_UP || (ATR_WRITABLE && (int)type != ATR_REG_TYPE)))))
-__CPROVER_ensures((ATR_RV == -1 && xv_errno == EINVAL && ATR_NOT_LOOKED_UP && xv_ap_len == 0) ==> !ATR_LEN_OK(type, len))
+__CPROVER_ensures((ATR_RV == -1 && xv_errno == EINVAL && ATR_NOT_LOOKED_UP && xv_ap_len == 0) ==> \
+                  (!ATR_TYPE_VALID(type) || !ATR_LEN_OK(type, len) || (type == xcm_attr_type_str && ATR_STR_UNTERMINATED(value, len))))
 /* PO[C10] attr_tree_set_value.setter_runs_at_most_once_with_the_callers_value_only_if_everything_fits */
 __CPROVER_ensures(ATR_NO_SETTER || (xv_atr_set_calls == ATR_OLD(xv_atr_set_calls) + 1 && xv_atr_set_good == ATR_OLD(xv_atr_set_good) + 1 && ATR_LOOKED_UP && \
                   ATR_WRITABLE && (int)type == ATR_REG_TYPE && ATR_LEN_OK(type, len)))
@@ -300,6 +305,27 @@ __CPROVER_ensures(xv_atr_get_calls == ATR_OLD(xv_atr_get_calls) + 1 && xv_atr_ge
 /* PO[C10] attr_node_value_get.result_unchanged */
 __CPROVER_ensures(ATR_RV == xv_atr_get_rv && xv_errno == xv_atr_get_errno)
 ;
+
+/* ---- constructors: what ATTR_TREE_ADD_RW / ATTR_TREE_ADD_RO (attr_tree_add_value_node) register is what the checks of
+ * attr_tree_set_value / attr_tree_get_value later read: type, socket, context, setter (NULL for _RO) and getter, unchanged */
+struct attr_node *attr_node_value(struct xcm_socket *s, void *context, enum xcm_attr_type type, attr_set set, attr_get get)
+__CPROVER_requires(1)
+__CPROVER_assigns()
+/* PO[C10] attr_node_value.registers_exactly_what_it_was_given */
+__CPROVER_ensures(__CPROVER_is_fresh(ATR_RV, sizeof(struct attr_node)) && ATR_RV->type == attr_node_type_value && ATR_RV->value.type == type && \
+                  ATR_RV->value.s == s && ATR_RV->value.context == context && ATR_RV->value.set == set && ATR_RV->value.get == get)
+;
+struct attr_tree *attr_tree_create(void)
+__CPROVER_requires(1)
+__CPROVER_assigns()
+/* PO[C10] attr_tree_create.empty_root_dictionary */
+__CPROVER_ensures(__CPROVER_is_fresh(ATR_RV, sizeof(struct attr_tree)) && __CPROVER_is_fresh(ATR_RV->root, sizeof(struct attr_node)) && \
+                  ATR_RV->root->type == attr_node_type_dict && ATR_RV->root->dict.tqh_first == NULL && ATR_RV->root->dict.tqh_last == &ATR_RV->root->dict.tqh_first)
+;
+
+/* (attr_node_dict_add_key / attr_node_list_append / attr_node_destroy -- TAILQ_INSERT_TAIL / TAILQ_REMOVE -- have no job:
+ * CBMC 6.11 loses a store made through a pointer to a member of struct attr_node's anonymous union, see
+ * harness/attrtree/_tree.h; even the first insertion into an empty list fails its (true) postcondition for that reason) */
 
 /* ---- attr_tree_get_all: one value node.  The application's callback is a body-less stub that records its calls; its
  * precondition (checked at the call site) is that the value it is shown is readable for value_len bytes. */
